@@ -26,7 +26,7 @@ SPEC = {
     "assumptions": ["isomorphism oracle: brute-force canonical form n<=8, igraph VF2 above (cross-checked with networkx VF2 and canonical form on small cases each run)"],
     "exhaustive_note": "all labelled simple graphs on n<=4 (quick) / n<=5 (thorough) vertices x 3^n colourings from {C, 13C, C radical}; thorough additionally all 32 768 labelled graphs on 6 carbon atoms",
     "monitors_required": ["c02_partition_compare", "c02_near_miss_pairs", "c02_equal_string_groups", "oracle_selftest"],
-    "required_obs": {"quick": ["cov_object_history_pair", "route/direct", "route/v3000", "route/v2000", "cov_label_removed_pair_nonisomorphic", "cov_wl_equivalent_nonisomorphic_pair", "cov_label_moved_pair_nonisomorphic", "cov_cfi_pair", "cov_switch_pair_nonisomorphic", "cov_massrad_pair"]},
+    "required_obs": {"quick": ["cov_same_path_same_size_same_mtime_pair", "cov_object_history_pair", "route/direct", "route/v3000", "route/v2000", "cov_label_removed_pair_nonisomorphic", "cov_wl_equivalent_nonisomorphic_pair", "cov_label_moved_pair_nonisomorphic", "cov_cfi_pair", "cov_switch_pair_nonisomorphic", "cov_massrad_pair"]},
     "watchdog_s": {"quick": 900, "thorough": 5400},
 }
 PLAN = {
@@ -109,6 +109,44 @@ def route_graph(ctx, mol, rng, force=None):
         raise PipelineFailed(f"reader: {type(e).__name__}: {e}") from e
 
 
+def same_path_pair(ctx, kind, a: Mol, b: Mol):
+    """File-system history: the two molecules are written one after the other to the SAME path, with the same modification time (cp -p, rsync -t,
+    archives) and - the renderings being fixed-format - usually the same size, and read through graph_from_file."""
+    import os
+    import tucan.io.molfile_reader as mr
+    from ..oracles import ctab
+    path = os.path.abspath(f"same_path_{ctx.shard}_{os.getpid()}.mol")
+    flat = []
+    for m in (a, b):
+        m = m.copy()
+        for at in m.atoms:
+            at.x = at.y = at.z = 0.0  # fixed-format writers: equal sizes for isomers (coordinates and names are not identity data)
+        m.name = "pair"
+        flat.append(m)
+    texts = [ctab.render_v3000(m, ctab.V3Style(), random.Random(0)) for m in flat]
+    out = []
+    try:
+        for t in texts:
+            with open(path, "w") as f:
+                f.write(t)
+            os.utime(path, ns=(1_600_000_000 * 10 ** 9, 1_600_000_000 * 10 ** 9))
+            out.append(pipeline(mr.graph_from_file(path)))
+    except (PipelineFailed, Exception) as e:
+        ctx.hard_inconclusive.append(f"file route raised on a near-miss pair ({kind}): {type(e).__name__}: {e}"[:300])
+        return
+    finally:
+        if os.path.exists(path):
+            os.unlink(path)
+    ctx.evaluations += 2
+    ctx.mon("c02_same_path_pairs")
+    if len(texts[0].encode()) == len(texts[1].encode()):
+        ctx.count("cov_same_path_same_size_same_mtime_pair")
+    if out[0] == out[1]:
+        ctx.violation("trace:near-miss-pair", {"what": "two non-isomorphic molecules read one after the other from the same path (same mtime) share one TUCAN string",
+                                                "kind": kind, "string": out[0][:400], "same_size": len(texts[0]) == len(texts[1]), "a": a.to_json(), "b": b.to_json()},
+                      {"kind": "pair", "a": a.to_json(), "b": b.to_json(), "pairkind": kind, "same_path": True})
+
+
 def compare_pair(ctx, kind, a: Mol, b: Mol, rng):
     """Pipeline on both (b randomly relabelled), oracle verdict, C02 direction only."""
     b2, _ = G.relabel(b, rng)
@@ -131,6 +169,8 @@ def compare_pair(ctx, kind, a: Mol, b: Mol, rng):
         if sa == sb:
             ctx.violation("trace:near-miss-pair", {"what": "two non-isomorphic molecules share one TUCAN string", "kind": kind, "string": sa[:400],
                                                     "a": a.to_json(), "b": b2.to_json()}, {"kind": "pair", "a": a.to_json(), "b": b2.to_json(), "pairkind": kind})
+        elif len(a.atoms) <= 40 and rng.random() < 0.3:
+            same_path_pair(ctx, kind, a, b2)
     else:
         ctx.count(f"cov_{kind}_isomorphic")
         if sa != sb:
@@ -283,7 +323,9 @@ def replay(ctx, w):
         if s1 == s2:
             ctx.violation("trace:object-history", {"what": "graph object edited in place keeps its string", "string": s1[:300]}, case)
         return
-    if case["kind"] == "pair":
+    if case["kind"] == "pair" and case.get("same_path"):
+        same_path_pair(ctx, case.get("pairkind", "pair"), Mol.from_json(case["a"]), Mol.from_json(case["b"]))
+    elif case["kind"] == "pair":
         compare_pair(ctx, case.get("pairkind", "pair"), Mol.from_json(case["a"]), Mol.from_json(case["b"]), random.Random(0))
     elif case["kind"] == "group":
         mols = [Mol.from_json(m) for m in case["molecules"] if m]
